@@ -40,6 +40,35 @@ CHECKS = {
             "byte for byte, the parser must accept it and return the identical board (fields, hash, caches), "
             "parse-then-write must reproduce it, and the builder (and standard()) must produce the identical board. "
             "Clock values 0..9999.", TECH, "5/C05", NOTE),
+    "C06": ("model_checking",
+            "(b) every distinct board the parser or the builder returns for ~1M mutated/random byte strings and seeded "
+            "random assemblies is projected and TLC evaluates ValidPosition of spec/Chess.tla on it (ChessTrace.tla, "
+            "action Parsed; a sample is checked like any other position); (c) TLC generates reachable positions with "
+            "their canonical text and the parser must accept each; (a) 'never panics for any byte string' is explored "
+            "only: byte- and field-level mutations of canonical texts plus seeded random strings in an assertion-enabled build.",
+            "explicit TLA+ spec + TLC; impl->spec trace validation of accepted boards, spec->impl replay of canonical texts; exploration for totality",
+            "5/C06", "Trusted: TLC; ValidPosition as the property's list of conditions; obligation (a) is exploration, not a decision."),
+    "C11": ("model_checking",
+            "The control skeleton of the iterative-deepening loop (spec/Search.tla, one action per critical section, "
+            "nondeterministic monotone expiry) is model-checked exhaustively for the C11 invariants, 'no commit after "
+            "expiry' and termination. The real engine is run with a counting limit expiring first at poll k for every k "
+            "up to the cost of three passes on small positions (seeded k on larger ones, with and without repetition "
+            "history); hook events and polls are validated against layer R by spec/SearchTrace.tla.",
+            "explicit TLA+ spec + TLC model checking; impl->spec trace validation", "5/C11",
+            "Trusted: TLC; layer R; hook placement at the linearization points; polls deep in the tree are counted, not logged."),
+    "C12": ("model_checking",
+            "TLC enumerates placement families (K+Q, K+R, K+Q vs pawn shield, K+R+R, K+B+N; defending king on the edge, "
+            "attacking king at supporting distance; both colours) and BFS states of mate-rich roots; the engine searches "
+            "each until its first pass is committed; spec/SearchTrace.tla recomputes MateMoves of layer R and demands a "
+            "mating move with the mover's mate-in-one score when one exists and no mate-in-one score otherwise.",
+            "explicit TLA+ spec + TLC behaviour generation; impl->spec trace validation", "5/C12",
+            "Trusted: TLC; layer R; the limit used lets exactly the first pass finish."),
+    "C13": ("model_checking",
+            "TLC generates positions with their colour mirror (promotion-free at the root, decided by the specification); "
+            "the default engine searches both under the same poll budget; per-depth committed scores must be negations "
+            "(spec/Score.tla) for every depth both completed (spec/SearchTrace.tla, event mirror_pair).",
+            "explicit TLA+ spec + TLC behaviour generation; impl->spec trace validation", "5/C13",
+            "Trusted: TLC; Mirror/Neg of the specification; sampled positions (BFS depth 1 from the root set), not all reachable ones."),
     "C08": ("model_checking",
             "For every square TLC enumerates subsets of the square's own ray squares with the attack set obtained by ray "
             "casting in the specification (spec/Geometry.tla: RayAttack); the harness looks each up in the real magic "
